@@ -19,7 +19,7 @@ from src import utils
 class SymRandom:
     def __init__(self, eng, words=None, max_draws=400, max_sym_draws=None, sym_filter=None):
         self.eng = eng
-        self.words = list(words or ['aa', 'bb', 'cc', 'dd', 'ee', 'ff', 'gg', 'hh'])
+        self.words = list(words or ['zqa', 'zqb', 'zqc', 'zqd', 'zqe', 'zqf', 'zqg', 'zqh'])
         self.pool = list(self.words)
         self.draws = 0
         self.sym_draws = 0
